@@ -219,14 +219,16 @@ Fixpoint mapM {A B} (f : A -> out B) (l : list A) : out (list B) :=
   | x :: r => do y <- f x; do ys <- mapM f r; Ok (y :: ys)
   end.
 
-(** the Python object a parsed document node is, when it is handed on unchanged *)
-Definition nat_of_doc (j : jv) : dval :=
+(** the Python object a parsed document node is, when it is handed on unchanged
+    (bytes and maps stay raw document nodes) *)
+Fixpoint nat_of_doc (j : jv) : dval :=
   match j with
   | JNull => DNone
   | JBool b => DLeaf (LBool b)
   | JInt z => DLeaf (LInt z)
   | JFlt x => DLeaf (LDouble x)
   | JStr s => DLeaf (LText s)
+  | JList l => DList (map nat_of_doc l)
   | _ => DRaw j
   end.
 
@@ -297,7 +299,9 @@ Section Leaf.
               (* msgpack.py integer_to_bytes: -1<<63 <= value < 1<<64 *)
               if (- 2 ^ 63 <=? z) && (z <? 2 ^ 64) then Ok (JInt z) else Ok (JBytes (str_int z))
           | KBool, LBool b => Ok (JBool b)
-          | KDouble, LDouble x => Ok (JFlt x)
+          | KDouble, LDouble x =>
+              (* msgpack.py _ret_number as an output handler: value in (True, False) -> int(value) *)
+              match in_true_false (JFlt x) with Some z => Ok (JInt z) | None => Ok (JFlt x) end
           | KText, LText t =>
               match utf8_enc t with Some b => Ok (JBytes b) | None => Crash UnicodeError end
           | KDecimal _, LDecimal d => Ok (JBytes (dec_str d))
@@ -349,7 +353,8 @@ Section Leaf.
                                | Crash e => Crash e
                                end
                           else VFault
-              | JBytes _ => VFault
+              | JBytes [] => Ok (DLeaf (LBytes []))   (* b''.join(b'') *)
+              | JBytes _ => VFault                    (* b''.join(b'..'): items are ints *)
               | _ => Crash AttributeError
               end
         end
@@ -383,7 +388,8 @@ Section Leaf.
         | JStr s => decimal_from_text msl s
         | JInt _ | JFlt _ | JBool _ => Crash TypeError     (* len(string) *)
         | JBytes b => if negb (ext_leb (Fin (len b)) msl) then VFault else Crash TypeError   (* D(bytes) *)
-        | _ => Crash OtherExn                                (* D(list) / D(dict): not modelled *)
+        | JList _ => Crash ValueError      (* D(list): not a (sign, digits, exponent) triple *)
+        | JMap _ => Crash TypeError
         end
     end.
 
@@ -486,9 +492,11 @@ Section Struct.
       end
     else t.
 
-  (** the wrapper-stripping loop of _object_to_doc on an Array class: one level *)
+  (** the wrapper-stripping loop of _object_to_doc on an Array class: a single-occurrence
+      Array is replaced by its (repeated) member; a repeated Array class is left alone
+      (repaired: the pinned loop went on unwrapping) *)
   Definition strip_arr (multi : bool) (t : dty) : bool * dty :=
-    if c_iw c then match t with DArr e => (true, e) | _ => (multi, t) end
+    if c_iw c && negb multi then match t with DArr e => (true, e) | _ => (multi, t) end
     else (multi, t).
 
   (** _get_member_pairs *)
@@ -520,8 +528,17 @@ Section Struct.
     | _, _ => Crash TypeError
     end.
 
-  (** _object_to_doc (o2d: the class is [t], with max_occurs > 1 iff [multi]) and
-      _to_dict_value (tdv) *)
+  (** _to_dict_value, with the recursive calls to _object_to_doc abstracted *)
+  Definition tdv_with (rec : bool -> dty -> dval -> out jv) (t : dty) (v : dval) : out jv :=
+    match poly_target t v with
+    | DArr e => rec true e v
+    | DRef d => complex_to_doc rec d v
+    | DPrim kd => leaf_enc c kd v
+    end.
+
+  (** _object_to_doc: the class is [t], with max_occurs > 1 iff [multi].  One unit of
+      fuel per nested _object_to_doc call; running out is the distinguished
+      [Crash OtherExn], which the theorems exclude. *)
   Fixpoint o2d (fuel : nat) (multi : bool) (t : dty) (v : dval) {struct fuel} : out jv :=
     match fuel with
     | O => Crash OtherExn
@@ -532,24 +549,20 @@ Section Struct.
             let '(multi', t') := strip_arr multi t in
             if multi' then
               match v with
-              | DList xs => do l <- mapM (tdv k t') xs; Ok (JList l)
+              | DList xs => do l <- mapM (tdv_with (o2d k) t') xs; Ok (JList l)
               | _ => Crash TypeError
               end
-            else tdv k t' v
-        end
-    end
-  with tdv (fuel : nat) (t : dty) (v : dval) {struct fuel} : out jv :=
-    match fuel with
-    | O => Crash OtherExn
-    | S k =>
-        match poly_target t v with
-        | DArr e => o2d k true e v
-        | DRef d => complex_to_doc (o2d k) d v
-        | DPrim kd => leaf_enc c kd v
+            else tdv_with (o2d k) t' v
         end
     end.
 
+  Definition tdv (fuel : nat) (t : dty) (v : dval) : out jv := tdv_with (o2d fuel) t v.
+
   (** ** reading *)
+
+  (** the leaf branch of _from_dict_value is a parameter of the structural reader, so that
+      structural lemmas hold for any leaf reader; the implementation's is [leaf_dec c] *)
+  Variable ldec : bool -> lkind -> jv -> out dval.
 
   (** the key of an item, after [k.decode(self.key_encoding)] *)
   Definition norm_key (k : jv) : out jv :=
@@ -634,8 +647,18 @@ Section Struct.
       | _ => VFault
       end.
 
-  (** _doc_to_object (d2o) and _from_dict_value (fdv) *)
-  Fixpoint d2o (fuel : nat) (t : dty) (doc : jv) {struct fuel} : out dval :=
+  (** _from_dict_value, with the recursive call to _doc_to_object abstracted *)
+  Definition fdv_with (rec : dty -> jv -> out dval) (nillable : bool) (t : dty) (j : jv) : out dval :=
+    match t with
+    | DPrim kd => ldec nillable kd j
+    | _ =>
+        (* a null member is None (repaired); validate_native: nullable or value is not None *)
+        do r <- (match j with JNull => Ok DNone | _ => rec t j end);
+        if c_soft c && negb nillable && is_none r then VFault else Ok r
+    end.
+
+  (** _doc_to_object *)
+  Fixpoint d2o_gen (fuel : nat) (t : dty) (doc : jv) {struct fuel} : out dval :=
     match fuel with
     | O => Crash OtherExn
     | S k =>
@@ -647,7 +670,7 @@ Section Struct.
             | DArr e =>
                 match iter_doc doc with
                 | None => VFault
-                | Some items => do xs <- mapM (fdv k true e) items; Ok (DList xs)
+                | Some items => do xs <- mapM (fdv_with (d2o_gen k) true e) items; Ok (DList xs)
                 end
             | DRef d =>
                 do w <- unwrap d doc;
@@ -664,7 +687,7 @@ Section Struct.
                                             | None => VFault
                                             end
                                      end);
-                        do st <- fold_items (fdv k) ffs
+                        do st <- fold_items (fdv_with (d2o_gen k)) ffs
                                    (repeat DNone (length ffs), repeat 0 (length ffs)) items;
                         if c_soft c && negb (freq_ok ffs (snd st)) then VFault
                         else Ok (DObj d' (fst st))
@@ -672,19 +695,15 @@ Section Struct.
                 end
             end
         end
-    end
-  with fdv (fuel : nat) (nillable : bool) (t : dty) (j : jv) {struct fuel} : out dval :=
-    match fuel with
-    | O => Crash OtherExn
-    | S k =>
-        match t with
-        | DPrim kd => leaf_dec c nillable kd j
-        | _ =>
-            do r <- (match j with JNull => Ok DNone | _ => d2o k t j end);
-            if c_soft c && negb nillable && is_none r then VFault else Ok r
-        end
     end.
+
+  Definition fdv_gen (fuel : nat) (nillable : bool) (t : dty) (j : jv) : out dval :=
+    fdv_with (d2o_gen fuel) nillable t j.
 End Struct.
+
+(** the implementation: the structural reader over the protocol's own leaf reader *)
+Definition d2o (c : cfg) (U : duniverse) := d2o_gen c U (leaf_dec c).
+Definition fdv (c : cfg) (U : duniverse) := fdv_gen c U (leaf_dec c).
 
 (** * Method envelopes *)
 Record dsig := mksig {
